@@ -25,6 +25,7 @@ import (
 	"path/filepath"
 	"reflect"
 	"sort"
+	"strconv"
 	"strings"
 	"text/template"
 
@@ -937,9 +938,18 @@ type opRef struct {
 
 type opRefs []opRef
 
-func (o opRefs) Len() int           { return len(o) }
-func (o opRefs) Swap(i, j int)      { o[i], o[j] = o[j], o[i] }
-func (o opRefs) Less(i, j int) bool { return o[i].Key < o[j].Key }
+func (o opRefs) Len() int      { return len(o) }
+func (o opRefs) Swap(i, j int) { o[i], o[j] = o[j], o[i] }
+func (o opRefs) Less(i, j int) bool {
+	// a total order: operations with the same key are told apart by method and path
+	if o[i].Key != o[j].Key {
+		return o[i].Key < o[j].Key
+	}
+	if o[i].Method != o[j].Method {
+		return o[i].Method < o[j].Method
+	}
+	return o[i].Path < o[j].Path
+}
 
 func gatherOperations(specDoc *analysis.Spec, operationIDs []string) map[string]opRef {
 	operationIDs = pruneEmpty(operationIDs)
@@ -970,6 +980,16 @@ func gatherOperations(specDoc *analysis.Spec, operationIDs []string) map[string]
 		oo, found := operations[nm]
 		if found && oo.Method != opr.Method && oo.Path != opr.Path {
 			nm = opr.Key
+		}
+		// never overwrite an operation already collected under that name: operations whose
+		// names still collide after mangling are told apart by a numeric suffix
+		if _, taken := operations[nm]; taken {
+			base := nm
+			for i := 2; taken; i++ {
+				nm = base + strconv.Itoa(i)
+				_, taken = operations[nm]
+			}
+			log.Printf("warning: operation %s %s is named %q: the name %q is already taken by another operation", opr.Method, opr.Path, nm, base)
 		}
 		if len(operationIDs) == 0 || swag.ContainsStrings(operationIDs, opr.ID) || swag.ContainsStrings(operationIDs, nm) {
 			opr.ID = nm
